@@ -1,6 +1,15 @@
 # Registered checks: property -> engines and budgets per tier.
 # batches x runs = simulated cases of the plain binary; race_* = the same engine in the -race binary.
 CHECKS = {
+    "C08": dict(engines=["c08"], level="exploration",
+                quick=dict(batches=16, runs=60, timeout=900),
+                thorough=dict(batches=64, runs=1500, timeout=3000)),
+    "C09": dict(engines=["c09"], level="exploration",
+                quick=dict(batches=16, runs=60, timeout=900),
+                thorough=dict(batches=64, runs=1500, timeout=3000)),
+    "C10": dict(engines=["c10"], level="exploration",
+                quick=dict(batches=16, runs=40, timeout=900),
+                thorough=dict(batches=64, runs=1000, timeout=3000)),
     "C11": dict(engines=["c11"], level="exploration",
                 quick=dict(batches=16, runs=30, race_batches=8, race_runs=12, timeout=900),
                 thorough=dict(batches=64, runs=500, race_batches=32, race_runs=120, timeout=3000)),
@@ -23,7 +32,31 @@ for _p in ["C02", "C03", "C04", "C08", "C09", "C10", "C13", "C15", "C17", "C18"]
     if _p not in CHECKS:
         NOT_APPLICABLE[_p] = PENDING
 
+PIPE_NOTE = ("The schedule / fault-position dimension is explored by the seeded scheduler; the input dimension (tree shapes, sizes up to the stated bounds) is "
+             "only sampled by the workload generator. Oracle = independent Newick reader + brute-force split algebra (no gotree code). Interleavings at hook "
+             "granularity; dependencies un-instrumented; go1.26.8 runtime with go1.21 GODEBUG defaults.")
 TEXTS = {
+    "C08": dict(
+        level_text="Seeded simulation of the real Compare / CompareWeighted worker pools (fed by the real reader goroutine over a chunked simulated stream, or by a "
+                   "producer that places a taxon-mismatched tree at any position) under the deterministic scheduler; every record is checked against exact set "
+                   "algebra on the split maps of an independent reference model, in both directions (swap) and through the pairwise CommonEdges variant. "
+                   "Sampling: a clean run is evidence, not proof.",
+        design_ref="§4 C08", level_note=PIPE_NOTE,
+        technique="deterministic simulation: seeded scheduler + channel fault injection over the comparison pipeline, oracle = reference-model split algebra"),
+    "C09": dict(
+        level_text="Seeded simulation of reader goroutine -> Consensus under the deterministic scheduler, with chunked streams and a faulty record (foreign / missing / "
+                   "extra taxon, duplicate tip, malformed, error record) at any position, collections built so that frequencies hit the threshold exactly, dyadic "
+                   "thresholds and out-of-range ones; the consensus text is compared with a naive frequency table over an independent reference model, and again "
+                   "after re-ordering / re-rooting / rotating the inputs. Sampling: evidence, not proof.",
+        design_ref="§4 C09", level_note=PIPE_NOTE,
+        technique="deterministic simulation: seeded scheduler + stream/channel fault injection over the consensus pipeline, oracle = naive frequency table"),
+    "C10": dict(
+        level_text="Seeded simulation of the real FBP and TBE worker pools under the deterministic scheduler with a taxon-mismatched bootstrap tree at any position; "
+                   "supports read from the annotated reference tree are compared with brute-force split membership and Hamming/transfer distances on an independent "
+                   "reference model, plus range, TBE>=FBP, TBE=1<=>FBP=1, no tip support, and invariance under re-ordering / re-rooting / rotation of the bootstrap "
+                   "trees. Sampling: evidence, not proof.",
+        design_ref="§4 C10", level_note=PIPE_NOTE + " Excluded: the branch above a root child whose split is trivial (n-1|1) - the statement speaks of inner branches.",
+        technique="deterministic simulation: seeded scheduler + channel fault injection over the bootstrap-support pipelines, oracle = brute-force transfer distance"),
     "C11": dict(
         level_text="Seeded search over goroutine interleavings, thread counts and fault positions of the real worker pools (Compare, CompareWeighted, FBP, TBE) "
                    "under a deterministic scheduler; each case is checked against its own sequential run, against a deadlock/step-budget detector and, in a second "
